@@ -6811,10 +6811,23 @@ impl Machine {
         let mut parser = Parser::new(chars, &mut self.machine_st);
         let op_dir = CompositeOpDir::new(&self.indices.op_dir, None);
 
-        let term_write_result = parser
-            .read_term(&op_dir, Tokens::Default)
-            .map_err(|err| error_after_read_term(err, 0, &parser))
-            .and_then(|term| write_term_to_heap(&term, &mut self.machine_st.heap));
+        // nothing but layout up to the end of the text is a plain end of file.
+        let only_layout_left = match parser.lexer.scan_for_layout() {
+            Ok(_) => match parser.lexer.lookahead_char() {
+                Err(e) if e.is_unexpected_eof() => Ok(true),
+                _ => Ok(false),
+            },
+            Err(e) => Err(error_after_read_term(e, 0, &parser)),
+        };
+
+        let term_write_result = match only_layout_left {
+            Ok(true) => Err(CompilationError::from(ParserError::unexpected_eof())),
+            Ok(false) => parser
+                .read_term(&op_dir, Tokens::Default)
+                .map_err(|err| error_after_read_term(err, 0, &parser)),
+            Err(e) => Err(e),
+        }
+        .and_then(|term| write_term_to_heap(&term, &mut self.machine_st.heap));
 
         match term_write_result {
             Ok(term_write_result) => Ok(Some(term_write_result)),
